@@ -1,4 +1,4 @@
-import SSVerif.Model.HashTable
+import SSVerif.Model.HashTableIter
 import SSVerif.Generated.HashPrimes
 import Driver.Util
 /-! driver sub-command `c20`: replays a hash-table op file on the model -/
@@ -45,8 +45,15 @@ def step (s : St) (ws : List String) : St × String :=
     | none => (s, "bad-op")
   | ["empty"] => ({ s with h := empty s.h }, "ok")
   | ["inuse"] => (s, s!"v {s.h.inuse}")
-  | ["iter"] => (s, "it " ++ showEntries (iter s.h))
-  | ["tolist"] => (s, "it " ++ showEntries (tolist s.h))
+  -- the cursor walk of hash_table_iter / hash_table_iter_next (Model/HashTableIter), not `flatten`
+  | ["iter"] =>
+    match iterWalk s.h with
+    | some l => (s, "it " ++ showEntries l)
+    | none => (s, "it-overrun")
+  -- the nested loop of hash_table_tolist and its `*count`
+  | ["tolist"] =>
+    let (l, cnt) := tolistWalk s.h
+    (s, (if l.length = cnt then "" else s!"count-mismatch {l.length} {cnt} ") ++ "it " ++ showEntries l)
   | _ => (s, "bad-op")
 
 def main : IO Unit :=
